@@ -287,6 +287,53 @@ def check_wide(case):
     return dict(nontrivial=len(set(case["kpos"]) | set(case["kneg"])) >= 3, labels=[f"wide:{kind}"])
 
 
+def _eer_affine_cases(tier):
+    for arr in ("separated", "separated-wide", "interleaved", "one-exchange"):
+        for a in (1.0, 2.0, 0.5, 4.0):
+            for b in (0.0, 512.0, 1024.0, 4096.0, 65536.0, -4096.0):
+                yield dict(arr=arr, a=a, b=b)
+
+
+def check_eer_affine(case):
+    """EER threshold under exact (dyadic) increasing affine maps whose offset is large against the gap
+    between the classes (round 10, c08-s: a magnitude-relative closeness test inside the separated-classes
+    shortcut): thresholds map by the same map, measured against the spread of the scores, EER unchanged."""
+    from score_analysis import Scores
+
+    arr, a, b = case["arr"], case["a"], case["b"]
+    q = 2.0 ** -10
+    if arr == "separated":
+        neg = [q * (3 * i) for i in range(9)]
+        pos = [q * (3 * 8 + 10 + 5 * i) for i in range(8)]  # gap of 10 q ~ 0.01
+    elif arr == "separated-wide":
+        neg = [q * (7 * i) for i in range(6)]
+        pos = [q * (200 + 11 * i) for i in range(7)]
+    elif arr == "interleaved":
+        neg = [q * (4 * i) for i in range(10)]
+        pos = [q * (4 * i + 14 + (i % 3)) for i in range(10)]
+    else:
+        neg = [q * (3 * i) for i in range(9)] + [q * 40]
+        pos = [q * 30] + [q * (36 + 5 * i) for i in range(8)]
+    allv = pos + neg
+    rng = max(allv) - min(allv)
+    ap, an = [a * x + b for x in pos], [a * x + b for x in neg]
+    for sc, ec in CONFIGS:
+        if sc == "neg":  # the same arrangement read the other way round
+            p_, n_, ap_, an_ = neg, pos, an, ap
+        else:
+            p_, n_, ap_, an_ = pos, neg, ap, an
+        o = Scores(p_, n_, score_class=sc, equal_class=ec)
+        af = Scores(ap_, an_, score_class=sc, equal_class=ec)
+        t, e = o.eer()
+        ta, ea = af.eer()
+        ctx = f"{arr} pos={p_} neg={n_} config={sc}/{ec} map {a}*s+{b}"
+        require(abs(float(e) - float(ea)) <= 1e-8, "sym:affine-eer", lambda: f"{ctx}: EER {e!r} -> {ea!r}")
+        require(abs(float(ta) - (a * float(t) + b)) <= 1e-6 * a * rng, "sym:affine-eer",
+                lambda: f"{ctx}: EER threshold {t!r} -> {ta!r}, the map gives {a * float(t) + b!r} "
+                        f"(spread of the scores {rng!r})")
+    return dict(nontrivial=b != 0 or a != 1, labels=[f"arr:{arr}", f"b:{b}"])
+
+
 PROP = Prop(
     id="C08",
     rule=("Hypothesis: score sets (ties, int dtype, floats |x|<=1e6, tie-free, empty classes, easy "
@@ -303,6 +350,8 @@ PROP = Prop(
     clauses=[
         Clause("symmetries", check, strategy=lambda tier: _cases(9 if tier == "quick" else 25), quick=250, thorough=7200, quick_shards=4,
                min_nontrivial=100, doc="swap / negation / affine metamorphic pairs"),
+        Clause("eer_affine", check_eer_affine, kind="enum", cases=_eer_affine_cases, quick_shards=4, shards=4,
+               min_nontrivial=40, doc="EER threshold under exact affine maps with offsets 5e2..7e4 against a class gap of 0.01"),
         Clause("swap_wide", check_wide, strategy=_wide_cases(), quick=150, thorough=2000, quick_shards=2,
                min_nontrivial=50, doc="swap() of int64/uint64 scores beyond 2^53 and of long-double scores 2^-60 apart"),
         Clause("group_swap", check_group, strategy=_group_cases(), quick=200, thorough=4800,
@@ -312,4 +361,4 @@ PROP = Prop(
                  "EER equivariance only for tie-free inputs (see C06)"],
 )
 
-RULE_EXTRA = ('thresholds held in float32/float16; per-group queries before swap() (GroupScores). A class made of the two consecutive scores -1e308 / 1e308; a power of two and its lower neighbour in different classes under 3*s; clause swap_wide (64-bit integer scores beyond 2^53, long doubles).')
+RULE_EXTRA = ('clause eer_affine: separated / interleaved dyadic classes with a gap of 0.01 under exact maps a*s+b, b up to 65536 - EER threshold measured against the spread of the scores; thresholds held in float32/float16; per-group queries before swap() (GroupScores). A class made of the two consecutive scores -1e308 / 1e308; a power of two and its lower neighbour in different classes under 3*s; clause swap_wide (64-bit integer scores beyond 2^53, long doubles).')
